@@ -237,6 +237,29 @@ def memo_key_defect(o: Outcome) -> Optional[Tuple[str, str]]:
             _unit_ids_in(st, a, params)
         missing = sorted((vids & params) - direct)
         if missing:
+            # a unit is keyed as well when everything of it that the value mentions (its scale, its quantum) is in
+            # the key as a number: the value is then computed from the key
+            def unit_atoms(v, acc, depth=0):
+                if depth > 6:
+                    return
+                if isinstance(v, Num):
+                    acc.update(a for a in st.norm(v.rf).atoms() if a[0] in ("mu", "sf", "beta") and a[1] in st.uparent)
+                elif isinstance(v, UnitV):
+                    acc.update(a for a in st.norm(st.U(v.uid).mu).atoms() if a[0] in ("mu", "sf", "beta") and a[1] in st.uparent)
+                elif isinstance(v, QtyV):
+                    for x in (v.amount, v.unit):
+                        if x is not None:
+                            unit_atoms(x, acc, depth + 1)
+                elif isinstance(v, (TupleV, ListV)) and getattr(v, "items", None) is not None:
+                    for x in v.items:
+                        unit_atoms(x, acc, depth + 1)
+            va, ka = set(), set()
+            unit_atoms(val, va)
+            for x in (key.items if isinstance(key, TupleV) else [key]):
+                if isinstance(x, Num):
+                    unit_atoms(x, ka)
+            missing = [u for u in missing if not all(a in ka for a in va if st.ufind(a[1]) == u)]
+        if missing:
             return ("memoised result is not keyed by all the inputs it depends on",
                     f"{g.name}[{key!r}] = {val!r} depends on {missing}, which the key does not contain: a later call "
                     f"with another such input would replay this entry")
